@@ -133,6 +133,19 @@ def run(ctx):
         w[-1] = last
         dod, Lf, table = oracle.table_oracle(c0["edges"], w, c0["massive"], c0["ext"], c0["D"])
         cases.append(dict(c0, weights=w, dod=dod, loops=Lf, table=table, accepted=not oracle.divergent_subsets(table), name="near_integer_dod"))
+    # propagator powers far BELOW D/2 per loop (overall dod negative, every generalised dod dominated by the - L D/2 + |dod| terms): the order
+    # of the two subtractions in `w - L D/2 - dod` is then visible in the last bits, and the full graph's entry is exactly 0 only in that order
+    for _ in range(8 if ctx.quick else 40):
+        name = rng.choice(["sunrise", "banana4", "double_triangle", "bubble", "triangle", "kite"])
+        edges, mp, _ = gen.relabel(rng, list(gen.CATALOGUE[name]))
+        nE = len(edges)
+        D = rng.choice([3, 5, 6, 6])
+        w = [rng.choice([0.1, 0.3, 0.4, 0.45, 0.15, 0.7, 0.35]) for _ in range(nE)]
+        massive = [False] * nE
+        ext = list(mp)
+        dod, Lf, table = oracle.table_oracle(edges, w, massive, ext, D)
+        cases.append(dict(edges=edges, weights=w, massive=massive, ext=ext, D=D, dod=dod, loops=Lf, table=table,
+                          accepted=not oracle.divergent_subsets(table), name="small_weights"))
     # `externals` lists with 64 and more entries (labels are u8: detached labels and repeated entries are legal)
     for c0 in list(cases[: (6 if ctx.quick else 30)]):
         verts = sorted(set(v for e in c0["edges"] for v in e))
